@@ -13,12 +13,13 @@ def main():
     w = World()
     for p in glob.glob(os.path.join(os.path.dirname(__file__), "specs", "*.py")):
         w.load_specs(p)
+    dsl.REG.world = w
     for m in mod.split(","):
         importlib.import_module("contracts." + m)
     I = Interp(w, dsl.REG)
     tot = 0; bad = 0
     for q, c in dsl.REG.contracts.items():
-        if c.mode != "verify" or (filt and not any(q.endswith(f) for f in filt)):
+        if c.mode != "verify" or (filt and not any(f in q for f in filt)):
             continue
         t0 = time.time()
         r = verify.verify_function(I, q, c.prop or "C??")
